@@ -122,7 +122,7 @@ var ByzKinds = map[string][]string{
 	"blocks":        {"other-branch", "body-swap", "drop-txns", "too-few", "too-many", "reorder", "wrong-type", "garbage", "close", "foreign-last"},
 	"checkpoint":    {"non-v2", "wrong-id", "state-field", "state-work", "recommit", "wrong-type", "garbage", "close", "two-payouts"},
 	"relay-header":  {"low-work", "unknown-parent"},
-	"relay-outline": {"low-work", "invalid-child", "wrong-missing", "no-missing", "hash-lie", "unknown-parent"},
+	"relay-outline": {"low-work", "invalid-child", "wrong-missing", "no-missing", "txn-altered", "unknown-parent"},
 	"relay-txset":   {"empty", "unknown-basis", "invalid"},
 }
 
